@@ -1,6 +1,6 @@
 CONSTANTS
   MaxSeq = 8
-  CovDen = 3
+  CovDen = 4
   Lip = "2"
   Fs <- FsQuick
   Thresholds <- ThrQuick
